@@ -4,10 +4,12 @@ Driver handler for the command line → library call interpreter (Cli/Dispatch.l
   dispatch <kind: 0 formula | 1 transformation> <name> <argv…>      strings as code-point lists
       answer: `<call by the templates regenerated from the source> ## <call by the documented table>`
   dispatch_supported <kind>                                         names of the handled sub-commands
+  cli_outcome <kind> <name> <argv…>                                 outcome class of the whole run (Cli/Outcome.lean)
 -/
 import CnfgenModel.Driver.Util
 import CnfgenModel.Cli.Dispatch
 import CnfgenModel.Cli.DispatchDoc
+import CnfgenModel.Cli.Outcome
 namespace Cnfgen.Driver.Dispatch
 open Cnfgen Cnfgen.Driver Cnfgen.Cli Cnfgen.Gen
 
@@ -21,6 +23,8 @@ def fmtVal : Val → String
   | .ints l => "L" ++ ",".intercalate (l.map toString)
   | .graph k toks => "G" ++ k ++ ":" ++ "/".intercalate (toks.map fmtStr)
   | .param n => "P" ++ n
+  | .toks _ => "?"
+  | .pos => "?"
   | .opaque _ => "?"
 
 def fmtCall (c : Call) : String :=
@@ -43,6 +47,14 @@ def handle (opname : String) (a : Args) : Option String :=
             | some h => fmtResult (Cnfgen.Cli.dispatch h argv)
             | none => "UNSUPPORTED"
       pure (cur ++ " ## " ++ fmtResult (dispatchDoc (kindName k) name argv))) a
+  | "cli_outcome" => run (do
+      let k ← int; let name ← str; let argv ← listOf str
+      pure (match cliOutcomeNamed (kindName k) name argv with
+            | some .ok => ok "ok"
+            | some .cliError => ok "cliError"
+            | some .internalBug => ok "internalBug"
+            | some (.escaped e) => ok ("escaped:" ++ e.name)
+            | none => "UNSUPPORTED")) a
   | "dispatch_supported" => run (do
       let k ← int
       pure (ok (" ".intercalate (supportedNames (kindName k))))) a
